@@ -349,6 +349,13 @@ func VerifyPKCS1v15(pub *PublicKey, hash crypto.Hash, hashed []byte, sig []byte)
 	// 	return boring.VerifyRSAPKCS1v15(bkey, hash, hashed, sig)
 	// }
 
+	// ZCrypto - the key may be hand-built or the result of a permissive parse:
+	// a missing/non-positive modulus or a missing/negative exponent must be an
+	// error, not a nil dereference or a math/big panic in encrypt.
+	if err := checkPub(pub); err != nil {
+		return err
+	}
+
 	// RFC 8017 Section 8.2.2: If the length of the signature S is not k
 	// octets (where k is the length in octets of the RSA modulus n), output
 	// "invalid signature" and stop.
